@@ -36,14 +36,17 @@ func formatCommentCharacter(comment string, char rune) string {
 	// Sharp-style comment
 	switch bs[0] {
 	case '#':
+		run := 0
 		for i := range bs {
 			if bs[i] != '#' {
 				break
 			}
 			bs[i] = char
+			run++
 		}
 		// A single "#" must become "//": a lone slash does not start a comment
-		if char == '/' && (len(bs) < 2 || bs[1] != '/') {
+		// (and a slash that follows it belongs to the text of the comment: "#/ x" is "///  x", not "// x")
+		if char == '/' && run == 1 {
 			bs = append([]rune{'/'}, bs...)
 		}
 	// Slash-style comment
